@@ -1,5 +1,6 @@
 SPECIFICATION MCSpec
 CONSTANT L = 5
+CONSTANT Mode = "main"
 VIEW View
 INVARIANT Ok
 INVARIANT Inv
